@@ -119,9 +119,12 @@ pub enum Edit {
     /// like ImpossibleTypeCondition / ImpossibleFragmentSpread, with an INTERFACE or UNION as the type condition
     ImpossibleAbstractCondition,
     ImpossibleAbstractSpread,
+    /// a composite field is selected a SECOND time in the same selection set (same response key), and only the second
+    /// occurrence's sub-selection names a field that does not exist: every occurrence must be checked against the schema
+    UnknownFieldUnderRepeatedField,
 }
 
-pub const ALL_EDITS: [Edit; 22] = [
+pub const ALL_EDITS: [Edit; 23] = [
     Edit::UnknownField,
     Edit::SubselectionOnLeaf,
     Edit::NoSelectionOnComposite,
@@ -144,6 +147,7 @@ pub const ALL_EDITS: [Edit; 22] = [
     Edit::TypenameOnlyInVariantInline,
     Edit::ImpossibleAbstractCondition,
     Edit::ImpossibleAbstractSpread,
+    Edit::UnknownFieldUnderRepeatedField,
 ];
 
 impl Edit {
@@ -171,6 +175,7 @@ impl Edit {
             Edit::TypenameOnlyInVariantInline => "typename-only-in-variant-inline",
             Edit::ImpossibleAbstractCondition => "impossible-abstract-type-condition",
             Edit::ImpossibleAbstractSpread => "impossible-abstract-fragment-spread",
+            Edit::UnknownFieldUnderRepeatedField => "unknown-field-under-a-repeated-field",
         }
     }
     /// document-level edits are applied once per operation, not per position
@@ -284,6 +289,23 @@ pub fn apply(s: &ASchema, doc: &ADoc, edit: Edit, pos: Option<&Pos>, op_idx: usi
             let at = pick % (set.len() + 1);
             set.insert(at, ASel::Field { alias: None, name: "noSuchFieldAnywhere".into(), sub: vec![] });
             desc = format!("field `noSuchFieldAnywhere` added at {}", pos.describe());
+        }
+        Edit::UnknownFieldUnderRepeatedField => {
+            let pos = pos?;
+            let set = selset_mut(&mut d, pos);
+            let composites: Vec<usize> = set.iter().enumerate().filter(|(_, sel)| matches!(sel, ASel::Field { sub, .. } if !sub.is_empty())).map(|(i, _)| i).collect();
+            if composites.is_empty() {
+                return None;
+            }
+            let i = composites[pick % composites.len()];
+            let mut twin = set[i].clone();
+            if let ASel::Field { sub, .. } = &mut twin {
+                sub.push(ASel::Field { alias: None, name: "noSuchFieldAnywhere".into(), sub: vec![] });
+            }
+            // right after the first occurrence, or at the end of the selection set
+            let at = if pick % 2 == 0 { i + 1 } else { set.len() };
+            set.insert(at, twin);
+            desc = format!("a composite field selected a second time at {}, with `noSuchFieldAnywhere` under the second occurrence only", pos.describe());
         }
         Edit::SubselectionOnLeaf => {
             let pos = pos?;
